@@ -29,6 +29,12 @@ PROPS = {
     'C10': dict(engine='sidecar', module='Kvass.Props.C10',
                 assumptions=['update requests carry each hash once (what the coordinator sends); the clock is injected through the verif hook VerifSetTimeNow'],
                 partial='update / scrape / restart step theorems hold from every state satisfying Cons and IdleInv, which are proved for every operation history; restart is proved at model level (Prop), the Bool monitor restartOk is evaluated on the real sidecar'),
+    'C12': dict(engine='proxy', module='Kvass.Props.C12',
+                assumptions=['gunzip is a function (the model sees the decompressed reads)', 'the stream parser reads its input to EOF or error', 'net/http ResponseWriter.Write writes everything or fails; short writes are covered for the tee reader alone (theorem over all write scripts; TestWrapReader-style micro engine not needed for http)'],
+                partial='none for the stated clauses; content type is checked by the harness monitor only (not part of the abstract model)'),
+    'C13': dict(engine='proxy', module='Kvass.Props.C13',
+                assumptions=['net/http: the status is fixed by the first write, a later WriteHeader is ignored, panic(http.ErrAbortHandler) cuts the connection (validated against a real httptest server and client on every run)', 'timeouts are represented by their effect (request fails / body read fails)'],
+                partial='none for the stated clauses'),
     'C14': dict(engine='sidecar', module='Kvass.Props.C14',
                 assumptions=['the float mean int64(float64(total)/float64(n)) equals integer division below 2^51 (n <= 3): exercised at exact multiples and neighbours', 'metric relabeling is a parameter (kept : Bool per sample) of the counting model; the real relabel engine runs in the harness'],
                 partial='none for the stated clauses: counts, per-metric sums, sliding window over every result sequence, shard load formula'),
@@ -40,6 +46,8 @@ PROPS = {
 }
 
 LEVEL_TEXT = {
+    'C12': 'Machine-checked theorems (Lean 4): for every chunking of the body and every sequence of short writes the tee reader forwards exactly the body (induction over chunks and over the short-write loop), and in every successful scenario the proxy answers 200 with exactly those bytes whether or not the target is assigned. Loop conditions regenerated from reader.go/proxy.go; validated against the real Proxy behind an HTTP server with scripted read sizes, gzip, all payload kinds.',
+    'C13': 'Machine-checked theorems (Lean 4) over every scenario (failure kind x stop x assignment x every read sequence with a failing read at any position): a failed real scrape yields a non-200 or aborted response, health is truthful, the counter moves exactly once per attempt. Validated against the real Proxy for every byte offset of a multi-read body, three error kinds, gzip and identity.',
     'C09': 'Machine-checked theorems (Lean 4): the file-system protocol extracted from saveTargets on every run is write-temp-then-rename, and for that protocol every crash state (any byte offset, any earlier leftover temp file) loads as the previous or the new assignment; round trip. The real save is then cut at a sweep of byte offsets in a child process (SIGXFSZ kill and EFBIG) and the directory + a fresh Load are compared with the model.',
     'C10': 'Machine-checked theorems (Lean 4) by induction over every operation history (updates, scrapes, restarts): consistency and idle invariants for all reachable states, and step theorems giving exactly-the-requested keys, requested states, retained statistics, counter restart exactly on normal->in-transfer, idle-since semantics. Decision expressions regenerated from targets.go/service.go/status.go; the model is validated against the real TargetsManager+Service+Proxy on random histories every run.',
     'C14': 'Machine-checked theorems (Lean 4): sample counting (total, kept, per-metric sums) for every payload; series = integer mean of the last <=3 successful scrapes and total = last successful, for every result sequence; shard load = sums with the head-series floor. Validated against the real proxy/parser/relabel engine with payloads of known counts.',
@@ -56,12 +64,13 @@ NOT_APPLICABLE = {
     'C02': 'check under construction', 'C03': 'check under construction', 
     'C06': 'check under construction', 
     'C11': 'check under construction',
-    'C12': 'check under construction', 'C13': 'check under construction', 'C14': 'check under construction',
+    'C14': 'check under construction',
     'C15': 'check under construction', 'C16': 'check under construction', 'C17': 'check under construction',
     'C19': 'check under construction', 'C20': 'check under construction',
 }
 
 ENGINES = [
+    {'name': 'proxy', 'path': 'harness/cmd/kvh/proxy.go', 'kind_free_text': 'real sidecar Proxy behind an httptest server, real HTTP client, in-memory target with scripted read sizes / cut offsets / error kinds'},
     {'name': 'store', 'path': 'harness/cmd/kvh/store.go', 'kind_free_text': 'child process running the real UpdateTargets under RLIMIT_FSIZE=N (kill and EFBIG), then a fresh TargetsManager.Load(); directory state matched against the crash states of the extracted save protocol'},
     {'name': 'sidecar', 'path': 'harness/cmd/kvh/sidecar.go', 'kind_free_text': 'real TargetsManager + Service (HTTP handlers) + Proxy with a scripted target transport, driven by random operation histories; every step trace-validated against Sidecar.step and the relational specs'},
     {'name': 'k8s', 'path': 'harness/cmd/kvh/k8s.go', 'kind_free_text': 'real pkg/shard/kubernetes on a client-go fake clientset; scale cases exhaustive over small counts, shard listings random permutations'},
